@@ -109,12 +109,25 @@ pub fn msg_s(m: &str) -> String {
     format!("Unknown:{}", clean)
 }
 
+/// With HARNESS_RAW_MSG set, the message class is followed by `#` and a digest of the raw text: C13 compares
+/// the std and no_std builds message for message, not class for class.
+fn raw_tag(e: &Error) -> String {
+    if std::env::var_os("HARNESS_RAW_MSG").is_none() {
+        return String::new();
+    }
+    let mut h: u32 = 0x811c9dc5;
+    for b in e.to_string().bytes() {
+        h = (h ^ b as u32).wrapping_mul(0x01000193);
+    }
+    format!("#{:08x}", h)
+}
+
 pub fn err_s(e: &Error) -> String {
     // an error built from a kind alone (`kind.into()`) carries no message of its own: whatever text the io
     // implementation prints for the kind is class "Simple" (std's own "failed to write whole buffer" has no
     // inner error either, so `get_ref()` cannot be used to tell)
     if e.to_string() == Error::from(e.kind()).to_string() {
-        return format!("err {} Simple", kind_s(e.kind()));
+        return format!("err {} Simple{}", kind_s(e.kind()), raw_tag(e));
     }
-    format!("err {} {}", kind_s(e.kind()), msg_s(&e.to_string()))
+    format!("err {} {}{}", kind_s(e.kind()), msg_s(&e.to_string()), raw_tag(e))
 }
